@@ -920,6 +920,64 @@ def check_sampler_init(ctx: Ctx, rule: str):
                       construct="init_sampling", key=f"sampler-init:{f.qualname}")
 
 
+_STATEFUL_LIBS = ("numpy", "random", "numba", "sortedcontainers", "os", "sys", "pyannote")       # solver libraries: ilp.check_solver_options judges their option tables
+
+
+def check_module_effects(ctx: Ctx, rule: str = "R-MODULE-EFFECTS"):
+    """closedness guard: the rules read functions.  Importing the package must not, as a side effect, change the state of a library the
+    computations run on (numpy's / random's generator state or error mode, numba's configuration, the environment):
+    such a statement at module level is executed once per process and is in no function any rule analyses.  Reported UNDECIDED (not a
+    verdict); properties with a rule about a specific table (solver options: C02 / C08 / C11) judge that one themselves."""
+    M = ctx.model
+    n = 0
+
+    def top_level(stmts):
+        for s in stmts:
+            if isinstance(s, (ast.FunctionDef, ast.AsyncFunctionDef, ast.ClassDef)):
+                continue
+            yield s
+            for fld in ("body", "orelse", "finalbody"):
+                sub = getattr(s, fld, None)
+                if isinstance(sub, list) and sub and isinstance(sub[0], ast.stmt):
+                    yield from top_level(sub)
+            for h in getattr(s, "handlers", []) or []:
+                yield from top_level(h.body)
+    for m in M.modules.values():
+        lib_names = {}
+        for node in top_level(m.tree.body):
+            if isinstance(node, ast.Import):
+                for al in node.names:
+                    if al.name.split(".")[0] in _STATEFUL_LIBS:
+                        lib_names[(al.asname or al.name).split(".")[0]] = al.name
+            elif isinstance(node, ast.ImportFrom) and node.module and node.module.split(".")[0] in _STATEFUL_LIBS and node.level == 0:
+                for al in node.names:
+                    lib_names[al.asname or al.name] = f"{node.module}.{al.name}"
+        if not lib_names:
+            continue
+
+        def root(e):
+            while isinstance(e, (ast.Attribute, ast.Subscript, ast.Call)):
+                e = e.func if isinstance(e, ast.Call) else e.value
+            return e.id if isinstance(e, ast.Name) else None
+        for node in top_level(m.tree.body):
+            hit = None
+            if isinstance(node, (ast.Assign, ast.AugAssign)):
+                for t in (node.targets if isinstance(node, ast.Assign) else [node.target]):
+                    if isinstance(t, (ast.Attribute, ast.Subscript)) and root(t) in lib_names:
+                        hit = t
+            elif isinstance(node, ast.Expr) and isinstance(node.value, ast.Call) and isinstance(node.value.func, ast.Attribute) and root(node.value.func) in lib_names:
+                hit = node.value
+            elif isinstance(node, ast.Delete) and any(root(t) in lib_names for t in node.targets):
+                hit = node.targets[0]
+            if hit is None:
+                continue
+            n += 1
+            ctx.undecided(rule, None, None, f"{m.relpath}:{getattr(node, 'lineno', 0)}: importing the package executes `{norm(node)[:100]}`, which changes state of "
+                          f"{lib_names[root(hit)]} for the whole process; no rule of this property reads module-level code (not a verdict)",
+                          construct=f"module level: {norm(hit)[:60]}", key=f"{m.relpath}:{norm(hit)[:60]}")
+    return n
+
+
 def check_overrides(ctx: Ctx, rule: str = "R-OVERRIDES"):
     """closedness guard: a rule that analysed `Class.m` speaks for every call `obj.m(...)` only if no subclass replaces m with code the
     rules did not look at.  An override of an analysed method that was itself not analysed is reported UNDECIDED (abstract methods are meant
